@@ -98,6 +98,30 @@ def step (st : DS) : List String → DS × String
       if st.pgroups.any (fun g => (g.cycle, g.node) == (st.pst.cycle, st.pst.node)) then (st, "reject")
       else ({ st with pgroups := st.pgroups ++ [writeP st.pst (dfltOf st) l] }, "ok")
     | none => (st, "bad-op")
+  | ["pwritel", layout, locs] => match parseNatList? layout, parseNatList? locs with
+    | some l, some ls =>
+      if st.pgroups.any (fun g => (g.cycle, g.node) == (st.pst.cycle, st.pst.node)) || l.length != ls.length then (st, "reject")
+      else ({ st with pgroups := st.pgroups ++ [writePL st.pst (dfltOf st) l ls] }, "ok")
+    | _, _ => (st, "bad-op")
+  | ["ploc", loc, params, steps] => match parseNat? loc, parseNatList? params, (if steps = "_" then some (allSteps st.pgroups) else parsePairs? steps) with
+    | some L, some ps, some steps =>
+      (st, match dbHistoryByLoc st.pgroups (dfltOf st) L ps steps with | some h => showHist ps h | none => "reject")
+    | _, _, _ => (st, "bad-op")
+  | ["plocdbi", loc, sn, params, steps] =>
+    match parseNat? loc, parseNat? sn, parseNatList? params,
+      (if steps = "_" then some (allSteps st.pgroups ++ (if (allSteps st.pgroups).contains (st.pst.cycle, st.pst.node) then [] else [(st.pst.cycle, st.pst.node)]))
+       else parsePairs? steps) with
+    | some L, some sn, some ps, some steps =>
+      (st, match dbiHistoryByLoc st.pgroups st.pst (dfltOf st) L sn ps steps with | some h => showHist ps h | none => "reject")
+    | _, _, _, _ => (st, "bad-op")
+  | ["plocs", req, params, steps] =>
+    -- the batched call: answers one line part per requested location, in request order
+    match parseNatList? req, parseNatList? params, (if steps = "_" then some (allSteps st.pgroups) else parsePairs? steps) with
+    | some req, some ps, some steps =>
+      (st, match locHistories st.pgroups req ps (dfltOf st) steps (req.map (fun L => (L, []))) with
+        | some t => " | ".intercalate (req.map (fun L => toString L ++ "=" ++ showHist ps ((t.lookup L).getD [])))
+        | none => "reject")
+    | _, _, _ => (st, "bad-op")
   | ["pstored", c, n] => match parseNat? c, parseNat? n with
     | some c, some n => (st, match st.pgroups.find? (fun g => (g.cycle, g.node) == (c, n)) with
       | some g => showList toString ((g.data.map (·.1)).mergeSort) | none => "reject")
@@ -135,6 +159,28 @@ def step (st : DS) : List String → DS × String
     | some db, some c, some n => (st, showOpt showSnap (load db ⟨c, n, lab l⟩))
     | none, some _, some _ => (st, "reject")
     | _, _, _ => (st, "bad-op")
+  | ["has", c, n, l] => match st.db, parseNat? c, parseNat? n with
+    | some db, some c, some n => (st, showBool (hasKey db ⟨c, n, lab l⟩))
+    | none, some _, some _ => (st, "reject")
+    | _, _, _ => (st, "bad-op")
+  | ["histlabel", serial, c, n, l] => match st.db, parseNat? serial, parseNat? c, parseNat? n with
+    | some db, some sn, some c, some n =>
+      -- `getHistory(obj, [param], [(c, n, label)])`: the group named by the step (KeyError if absent), keyed by its attributes,
+      -- then the live step if missing; the answer is the entry of (c, n)
+      (st, match load db ⟨c, n, lab l⟩ with
+        | none => "reject"
+        | some snap =>
+          let fromDb : List ((Nat × Nat) × Int) :=
+            match snap.objs.find? (fun o => o.1 == sn) with
+            | some o => [((snap.acycle, snap.anode), o.2.getD 0)]
+            | none => []
+          let h := if fromDb.isEmpty || fromDb.any (fun e => e.1 == (st.cur.cycle, st.cur.node)) then fromDb
+            else match st.cur.objs.find? (fun o => o.1 == sn) with
+              | some o => fromDb ++ [((st.cur.cycle, st.cur.node), o.2.getD 0)]
+              | none => fromDb
+          match h.lookup (c, n) with | some v => toString v | none => "_")
+    | none, some _, some _, some _ => (st, "reject")
+    | _, _, _, _ => (st, "bad-op")
   | ["steps"] => match st.db with
     | some db => (st, showList showPairN (steps db)) | none => (st, "reject")
   | ["history", serial, dflt] => match st.db, parseNat? serial, parseInt? dflt with
